@@ -99,6 +99,15 @@ CLAIMS = {
              "no longer live and the counter stays exact. The high-water mark and the ISON/USERHOST texts are checked per run by the oracle (L2).",
         design_ref="5 (C19)",
         note="Partial at proof level: max_users as true high-water mark and ISON/USERHOST are checked on traces, not proved."),
+    "C13": dict(
+        technique="Coq proof (tokenizer inverse of the relay serialiser by induction over blank-led tokens; well-formedness of every tokenised message; per-verb classification by case analysis over 41 verbs and arities) + grammar oracle, re-parse oracle, CRLF oracle and segmentation pairs on the real code",
+        text="Theorems (props/C13.v): every message out of the tokenizer has a non-empty, blank-free command and middle parameters not starting with ':'; serialising such a message with a source "
+             "and tokenising the result gives back exactly source, command and parameters, for every trailing text (C13_serialise_parse, C13_relay_reparses); a verb outside the table is answered 421 "
+             "with the upper-cased name, a known verb with fewer parameters than its arity 461, and with enough parameters the line is executed as exactly that verb or answered with a "
+             "parameter-specific error - never 421/461 (all 41 verbs, every arity); an unparsable line changes nothing and an empty line is ignored. The LinesCodec framing (several lines per "
+             "segment, split lines, the limit and 417), CRLF termination, blank runs of any kind and the format!-built relays (PART, KICK, 301) are decided per run on the real server (L2).",
+        design_ref="5 (C13)",
+        note="Partial at proof level: framing and CRLF are checked by oracles, not proved; the python grammar oracle is part of the check's trusted base."),
     "C01": dict(
         technique="Coq proof over the handler model (per-target delivery = duplicate-free audience list minus the sender, via Forall2/NoDup) + differential traces and an audience oracle on the implementation's own state",
         text="Theorems (props/C01.v) about the Gallina model of process_privmsg_notice, for ALL shared states, connections, target lists and texts: an accepted channel target queues "
